@@ -287,3 +287,18 @@ add("C18", "model_checking",
     "observables.",
     "dill/numpy/scipy containers trusted; single-row/column arrays outside the grid; nesting <= 2.",
     "DESIGN.md §3 C18")
+add("C01", "model_checking",
+    "exhaustive enumeration of system x bath x theory x option grid; both identities evaluated "
+    "on every element of every tensor at every time index in every reached basis",
+    "Full product sites(1-3 quick / 1-4 thorough) x energy pattern x coupling pattern x baths x 52 "
+    "tensor configurations (30 OpenSystem option combinations + 22 direct constructors: standard/"
+    "time-dependent Redfield, Foerster with/without pure dephasing, TD-Foerster, combined "
+    "Redfield-Foerster, operator forms converted by convert_2_tensor in four bases) and every set "
+    "of <=2 projector Lindblad operators x rates x 6 forms; each tensor read in the site basis, "
+    "inside eigenbasis_of(H), nested contexts, a real symmetric and a complex Hermitian operator's "
+    "basis and after leaving each context; every secularisation implementation in four contexts "
+    "with the 'kept elements unchanged / all others exactly zero' clauses. Oracle: sum_a R[a,a,c,d]=0 "
+    "and conj(R[a,b,c,d])=R[b,a,d,c] to 1e-10 of max|R| on every element.",
+    "Option combinations the package cannot build (constructor raises) are counted and excluded "
+    "(whitelist in the driver); <= 4 sites; one time-axis length.",
+    "DESIGN.md §3 C01")
